@@ -77,6 +77,8 @@ func (e event) String() string {
 		return fmt.Sprintf("housekeep(n%d)", e.a)
 	case "restart":
 		return fmt.Sprintf("restart(n%d)", e.a)
+	case "casx":
+		return fmt.Sprintf("cas#%d-with-push-from-n%d-inside", e.a, e.b)
 	}
 	return e.kind
 }
@@ -215,6 +217,7 @@ type cluster struct {
 	problem     string
 	keepForever bool
 	mkNode      func() *node
+	inCAS       func() // runs once, inside the next CAS function (first invocation)
 }
 
 // keepForever (optional): the nodes are configured with LeftIngestersTimeout 0 — tombstones are never discarded
@@ -354,6 +357,10 @@ func (c *cluster) applyCAS(s step) {
 		return e, true
 	}
 	err := nd.cli.CAS(context.Background(), c.key, func(in interface{}) (interface{}, bool, error) {
+		if h := c.inCAS; h != nil {
+			c.inCAS = nil
+			h() // something reaches the node between this CAS reading the key and merging the function's output
+		}
 		now := time.Now()
 		usedNow = now.Unix()
 		effect = nil
@@ -475,6 +482,23 @@ func (c *cluster) apply(e event) bool {
 		c.pos++
 		c.casLog = append(c.casLog, s)
 		c.applyCAS(s)
+		touched = s.node
+	case "casx":
+		// the CAS of script step a, with a full-state push from node b landing inside its window (after the CAS read
+		// the key, before it merges the function's output): for the reference the push simply comes first
+		if c.pos >= c.maxCAS || e.a >= len(c.script) || c.script[e.a].node == e.b {
+			return false
+		}
+		s := c.script[e.a]
+		c.pos++
+		c.casLog = append(c.casLog, s)
+		c.inCAS = func() {
+			data := c.nodes[e.b].kv.LocalState(false)
+			c.nodes[s.node].kv.MergeRemoteState(data, false)
+			c.nodes[s.node].ref.join(c.nodes[e.b].ref)
+		}
+		c.applyCAS(s)
+		c.inCAS = nil
 		touched = s.node
 	case "deliver":
 		if e.a >= len(c.pool) || c.pool[e.a].producer == e.b {
@@ -647,6 +671,7 @@ type scenario struct {
 	depth       int
 	ticks       int
 	keepForever bool // retention 0: tombstones are kept (and hidden from readers) for ever
+	casx        bool // CAS operations may also be hit by a full-state push inside their window
 	restarts    int  // node restarts per history (the restarted node comes back empty)
 	jumps       int  // clock jumps of (retention - 1 s): with the 1 s ticks, tombstones reach ages around the retention
 }
@@ -655,6 +680,11 @@ func (sc scenario) events(poolSize int) []event {
 	var evs []event
 	for a := range sc.script {
 		evs = append(evs, event{kind: "cas", a: a})
+	}
+	if sc.casx {
+		for a := range sc.script {
+			evs = append(evs, event{kind: "casx", a: a, b: (sc.script[a].node + 1) % sc.nodes})
+		}
 	}
 	for m := 0; m < poolSize; m++ {
 		for j := 0; j < sc.nodes; j++ {
@@ -722,6 +752,8 @@ func histString(h []event, sc scenario) string {
 	for _, e := range h {
 		if e.kind == "cas" {
 			s = append(s, sc.script[e.a].String())
+		} else if e.kind == "casx" {
+			s = append(s, sc.script[e.a].String()+fmt.Sprintf("[push from n%d inside its window]", e.b))
 		} else {
 			s = append(s, e.String())
 		}
@@ -904,6 +936,8 @@ func scenariosC06() []scenario {
 		{name: "two-lifecyclers", nodes: 2, depth: d, ticks: 1, maxCAS: k, script: []step{{0, opReg, "x"}, {0, opHeartbeat, "x"}, {1, opReg, "y"}, {1, opLeave, "y"}, {1, opRemove, "x"}, {0, opRemove, "x"}}},
 		{name: "partition-editor", nodes: 2, depth: d, ticks: 1, maxCAS: k, partition: true, script: []step{{0, "add-partition", ""}, {0, "set-active", ""}, {0, "set-inactive", ""}, {1, "lock", ""}, {1, "add-owner", "o"}, {0, "remove-owner", "o"}, {1, "remove-partition", ""}}},
 	}
+	// a full-state push may land inside the window of a CAS (between its read of the key and its merge)
+	scs = append(scs, scenario{name: "two-lifecyclers-push-inside-cas", nodes: 2, depth: d, ticks: 1, maxCAS: 3, casx: true, script: []step{{0, opReg, "x"}, {0, opHeartbeat, "x"}, {1, opReg, "y"}, {1, opRemove, "x"}}})
 	// a node's process may end once per history and come back empty (quantifier: "node restarts")
 	scs = append(scs, scenario{name: "two-lifecyclers-restart", nodes: 2, depth: d, ticks: 1, maxCAS: 3, restarts: 1, script: []step{{0, opReg, "x"}, {0, opHeartbeat, "x"}, {1, opReg, "y"}, {1, opRemove, "x"}}})
 	if ev.Thorough() {
